@@ -158,7 +158,7 @@ class Trees:
 
 
 def show(t, depth=0):
-    if not isinstance(t, tuple):
+    if not isinstance(t, tuple) or not t:
         return repr(t)
     if t[0] == 'val':
         v = t[1]
